@@ -432,8 +432,9 @@ def skew(v):
     :SymPy: supported
     """
     v = base.getvector(v, None, 'sequence')
-    if any(isinstance(x, np.unsignedinteger) for x in v):
-        v = [int(x) for x in v]  # negating unsigned NumPy scalars would wrap around
+    if any(isinstance(x, np.integer) for x in v):
+        # negating fixed-width NumPy integers can wrap around (unsigned types, the most negative signed value)
+        v = [int(x) if isinstance(x, np.integer) else x for x in v]
     if len(v) == 1:
         return np.array([
                 [ 0,   -v[0] ],
